@@ -166,7 +166,7 @@ pub fn judge(prop: &str, stream: &str, c: &Cell, o: &CellOutcome, supported: &dy
                     None => {}
                 }
             }
-            if !none_involved && !o.model.unanswered && (imp == "(err type)") != (model == "(err type)") {
+            if c.class != "index" && !none_involved && !o.model.unanswered && (imp == "(err type)") != (model == "(err type)") {
                 push("model-disagreement", "type-error-ness differs from the model", format!("C03 typeerr {}", tys));
             }
         }
